@@ -95,6 +95,25 @@ def ct_cases(r, tier):
     cases.append(("x.x25519:secret_u", "x.x25519 %s {0}" % H(rnd()), [(H(a),) for a in (0, 1, 9, P - 1, rnd())]))
     cases.append(("ris.from_uniform", "ris.from_uniform {0}", [(H(a, 64),) for a in (0, (1 << 512) - 1, r.below(1 << 512), r.below(1 << 512))]))
     cases.append(("ris.compress", "ris.compress {0}", [(pyref.ris_encode(pyref.smul(k, pyref.B)).hex(),) for k in (0, 1, 2, r.below(L), r.below(L))]))
+    # batch operations: a secret element that is zero / the identity / in the torsion coset must not change the trace
+    risid = pyref.ris_encode(pyref.ZERO).hex()
+    rpts = [pyref.ris_encode(pyref.smul(k, pyref.B)).hex() for k in (1, 2, 5, r.below(L))]
+    cases.append(("ris.double_compress_batch", "ris.double_compress_batch %s,%s,{0},%s" % (rpts[0], rpts[1], rpts[2]),
+                  [(risid,), (rpts[3],), (rpts[0],)]))
+    fes = [H(r.below(P)) for _ in range(3)]
+    cases.append(("fe.batch_invert", "fe.batch_invert %s,{0},%s" % (fes[0], fes[1]), [(H(0),), (fes[2],), (H(1),), (H(P - 1),)]))
+    cases.append(("sc.batch_invert", "sc.batch_invert %s,{0}" % H(r.below(L - 1) + 1), [(H(1),), (H(L - 1),), (H(r.below(L - 1) + 1),)]))
+    cases.append(("ed.eq", "ed.eq {0} {1}", [(pt[1].hex(), pt[1].hex()), (pt[1].hex(), pt[2].hex()), (pt[0].hex(), pt[4].hex()), (pt[3].hex(), pt[2].hex())]))
+    cases.append(("ed.add", "ed.add {0} {1}", [(pt[1].hex(), pt[1].hex()), (pt[0].hex(), pt[0].hex()), (pt[2].hex(), pt[3].hex()), (pt[4].hex(), pt[4].hex())]))
+    cases.append(("ed.select", "ed.select %s {0}" % B, [(str(x),) for x in (-8, -1, 0, 1, 7, 8)]))
+    cases.append(("ed.basepoint_table", "ed.basepoint_table {0}", [(H(a),) for a in (0, 1, L - 1, r.below(L))]))
+    cases.append(("ris.mul", "ris.mul %s {0}" % rpts[0], [(H(a),) for a in (0, 1, L - 1, r.below(L))]))
+    cases.append(("ris.eq", "ris.eq {0} {1}", [(rpts[0], rpts[0]), (rpts[0], rpts[1]), (risid, risid), (risid, rpts[2])]))
+    cases.append(("ris.elligator", "ris.elligator {0}", [(H(a),) for a in (0, 1, P - 1, pyref.SQRT_M1, rnd())]))
+    cases.append(("mont.elligator", "mont.elligator {0}", [(H(a),) for a in (0, 1, P - 1, rnd())]))
+    cases.append(("eds.sign_ph", "eds.sign_ph {0} 616263 6374", [(H(a),) for a in (0, (1 << 256) - 1, rnd())]))
+    cases.append(("eds.expand", "eds.expand {0}", [(H(a),) for a in (0, (1 << 256) - 1, rnd())]))
+    cases.append(("x.static", "x.static {0} %s" % H(9), [(H(a),) for a in (0, (1 << 256) - 1, rnd())]))
     cases.append(("eds.keygen", "eds.keygen {0}", [(H(a),) for a in (0, (1 << 256) - 1, rnd(), rnd())]))
     cases.append(("eds.sign", "eds.sign {0} 616263", [(H(a),) for a in (0, (1 << 256) - 1, rnd(), rnd())]))
     return cases
@@ -110,6 +129,8 @@ def extra_C10(ctx):
     jobs = []
     for cfg, binary in drivers.items():
         for lab, tmpl, secrets in cases:
+            if ctx.tier == "quick":
+                secrets = secrets[:3]
             for s in secrets:
                 jobs.append((cfg, binary, lab, tmpl.format(*s)))
     with ThreadPoolExecutor(max_workers=JOBS) as ex:
@@ -122,6 +143,8 @@ def extra_C10(ctx):
     for (cfg, lab), items in sorted(groups.items()):
         ntr += len(items)
         hs = {h for _, h, _, _ in items}
+        if all(it[3] == "skip" for it in items):
+            continue
         bado = [it for it in items if not it[3].startswith("ok") and not it[3].startswith("none")]
         if any(n == 0 for _, _, n, _ in items) or bado:
             violations.append({"kind": "infrastructure", "detail": "empty trace window or failed op for %s on %s: %r" % (lab, cfg, [(i[0][:60], i[2], i[3][:40]) for i in items][:3])})
